@@ -102,3 +102,37 @@ def azimuth_angle(t: Term, B: Term) -> Optional[str]:
     if ky is None or kx is None:
         return None
     return "ok" if (ky, kx) == (1, 0) else f"azimuth = arctan2(component {ky}, component {kx}) (must be arctan2(y, x) = (1, 0))"
+
+
+def angle_by_evaluation(t: Term, B: Term, kind: str, ndim: int = 3) -> Optional[str]:
+    """Witness generator for an angle written in a form the recognisers do not know: the extracted term is evaluated with the
+    bond-vector array B replaced by sample directions of every octant (quadrant) and compared with the definition
+    (polar: arccos(z/|r|) in [0, pi]; azimuth: arctan2(y, x) modulo 2 pi).  Returns a description with the differing vector, or
+    None when the term is not evaluable or agrees on all samples (agreement is not a proof)."""
+    import numpy as np
+    from ..concrete import ev as cev
+    vs = []
+    for sx in (1, -1):
+        for sy in (1, -1):
+            for sz in ((1, -1) if ndim == 3 else (0,)):
+                vs.append([0.7 * sx, 1.3 * sy, 0.5 * sz][:ndim])
+                vs.append([1.9 * sx, 0.2 * sy, 1.1 * sz][:ndim])
+    V = np.array(vs, dtype=float)
+    try:
+        with np.errstate(all="ignore"):
+            got = np.asarray(cev(t, {B: V}), dtype=float)
+    except Exception:  # noqa
+        return None
+    if got.shape != (V.shape[0],):
+        return None
+    if kind == "polar":
+        want = np.arccos(V[:, 2] / np.linalg.norm(V, axis=1))
+        dev = np.abs(got - want)
+    else:
+        want = np.arctan2(V[:, 1], V[:, 0])
+        dev = np.abs(np.exp(1j * got) - np.exp(1j * want))
+    if not np.all(np.isfinite(got)) or dev.max() > 1e-9:
+        k = int(np.argmax(np.where(np.isfinite(dev), dev, np.inf)))
+        return (f"bond vector {V[k].tolist()}: the {kind} angle evaluates to {got[k]:.6f}, the definition gives {want[k]:.6f}"
+                + (" (a polar angle outside [0, pi] multiplies Y_lm by (-1)^l through its associated Legendre factor)" if kind == "polar" else ""))
+    return None
